@@ -139,9 +139,9 @@ TEnd ==
   /\ (Ev.exit # 0) <=> (phase = "failed")
   /\ phase \in {"returned", "failed"}
   /\ IF phase = "returned"
-     THEN ToSet(Ev.files) = final
+     THEN ToSet(Ev.files) = final \cup CatFiles
      ELSE /\ final \subseteq ToSet(Ev.files)
-          /\ ToSet(Ev.files) \ final \subseteq
+          /\ ToSet(Ev.files) \ final \subseteq CatFiles \cup
                 UNION {TOuts(n, k) : <<n, k>> \in {<<n2, k2>> \in UNION {{n3} \X DOMAIN ts[n3] : n3 \in CmdRun} :
                                                      ts[n2][k2] \in {"ended", "published"}}}
   /\ Ev.execs = execs
